@@ -27,6 +27,10 @@ from mloda_plugins.compute_framework.base_implementations.pyarrow.table import P
 from mloda_plugins.compute_framework.base_implementations.pandas.dataframe import PandasDataFrame
 from mloda_plugins.compute_framework.base_implementations.python_dict.python_dict_framework import PythonDictFramework
 
+# transformers register themselves by being imported (ComputeFrameworkTransformer discovers BaseTransformer subclasses)
+import mloda_plugins.compute_framework.base_implementations.pandas.pandaspyarrowtransformer  # noqa: F401,E402
+import mloda_plugins.compute_framework.base_implementations.python_dict.python_dict_pyarrow_transformer  # noqa: F401,E402
+
 MODNAME = "verif_dyn"
 if MODNAME not in sys.modules:
     sys.modules[MODNAME] = types.ModuleType(MODNAME)
